@@ -1234,6 +1234,8 @@ class GrammarBuilder:
         if mangle is not None:
             params = tuple(mangle(p) for p in params)
             name = mangle(name)
+            if not is_term and opts.template_source is not None:
+                opts.template_source = name     # instances of an imported template are labelled with its (renamed) name
 
         exp = _mangle_definition_tree(exp, mangle)
         return name, is_term, exp, params, opts
